@@ -85,7 +85,16 @@ func VerifC05_batch_isolation() {
 		}
 		if found {
 			vAssert(len(resps[i]) > 0, "present-when-an-issuer-succeeds")
-			vAssert(vBytesEq(resps[i], want), "entry-is-that-issuers-response")
+			// the response of a matching issuer that succeeded (which one, if several share the
+			// truncated id, is not prescribed by the property)
+			isOne := false
+			for _, c := range cfg {
+				if c.typ == typ && c.keyID[31] == ids[i] && c.ok && vBytesEq(resps[i], c.resp) {
+					isOne = true
+				}
+			}
+			_ = want
+			vAssert(isOne, "entry-is-a-matching-issuers-response")
 			vReach("present")
 		} else {
 			vAssert(len(resps[i]) == 0, "absent-otherwise")
@@ -117,6 +126,17 @@ func VerifC05_batch_e2e_type1() {
 	keyB, err := oprf.GenerateKey(oprf.SuiteP384, rand.Reader)
 	vAssume(err == nil)
 	issA, issB := type1.NewBasicPrivateIssuer(keyA), type1.NewBasicPrivateIssuer(keyB)
+	// the two keys may share their truncated key id; natively a colliding key is searched for
+	collide := vBool("collide")
+	if vSymbolic() {
+		vAssume((issA.TokenKeyID()[31] == issB.TokenKeyID()[31]) == collide)
+	} else {
+		for ctr := 0; (issA.TokenKeyID()[31] == issB.TokenKeyID()[31]) != collide; ctr++ {
+			keyB, err = oprf.DeriveKey(oprf.SuiteP384, oprf.VerifiableMode, []byte{byte(ctr), byte(ctr >> 8), 7}, []byte("verif"))
+			vAssume(err == nil)
+			issB = type1.NewBasicPrivateIssuer(keyB)
+		}
+	}
 	pkA, _ := issA.TokenKey().MarshalBinary()
 	pkB, _ := issB.TokenKey().MarshalBinary()
 	vAssume(!vBytesEq(pkA, pkB))
